@@ -245,7 +245,7 @@ func (r *c20Run) step(op *c20Op) bool {
 		}
 		if i < len(bg) && bg[i] != f {
 			g := h.gos[i]
-			receiver := (op.name == "vsAdd" || op.name == "vsRemove" || op.name == "psAdd") && i == op.a
+			receiver := (op.name == "vsAdd" || op.name == "vsRemove" || op.name == "psAdd" || op.name == "psRemove") && i == op.a
 			alias := target != nil && (g == target || (targetID != nil && g.ident() == targetID))
 			if receiver || alias {
 				continue
@@ -362,11 +362,11 @@ var c20weights = []c20w{
 	{"numberVal", 5}, {"numberIntVal", 5}, {"stringVal", 4}, {"boolVal", 1}, {"nullVal", 1}, {"unknownVal", 3},
 	{"listVal", 5}, {"tupleVal", 5}, {"objectVal", 5}, {"mapVal", 4}, {"setVal", 5}, {"setValFromValueSet", 5},
 	{"asBigFloat", 4}, {"asValueSlice", 6}, {"asValueMap", 4}, {"asValueSet", 5}, {"elements", 3}, {"lengthInt", 2}, {"getAttr", 5}, {"index", 5},
-	{"marks", 2}, {"unmark", 2}, {"mark", 3}, {"withMarks", 3},
+	{"marks", 2}, {"unmark", 2}, {"mark", 3}, {"withMarks", 3}, {"withSameMarks", 3},
 	{"opAdd", 2}, {"opNegate", 1}, {"opEquals", 2}, {"opLength", 1},
 	{"newValueSet", 4}, {"vsAdd", 12}, {"vsRemove", 4}, {"vsHas", 2}, {"vsCopy", 7}, {"vsValues", 3}, {"vsLength", 1},
 	{"tupleType", 3}, {"tupleElementTypes", 3}, {"objectType", 2}, {"attributeTypes", 3},
-	{"pathIndex", 3}, {"pathGetAttr", 4}, {"pathCopy", 3}, {"newPathSet", 2}, {"psAdd", 5}, {"psHas", 2}, {"psList", 5},
+	{"pathIndex", 3}, {"pathGetAttr", 4}, {"pathCopy", 3}, {"newPathSet", 2}, {"psAdd", 5}, {"psHas", 2}, {"psRemove", 3}, {"psList", 5},
 	{"walkBegin", 2}, {"walkNext", 8},
 }
 
@@ -511,7 +511,7 @@ func (h *c20H) genOp(r *rand.Rand) *c20Op {
 		op.a, op.s = h.pickVal(r), []string{"p", "q"}[r.Intn(2)]
 	case "withMarks":
 		op.a, op.b = h.pickVal(r), h.pickGo(r, "marks")
-	case "opAdd", "opEquals":
+	case "opAdd", "opEquals", "withSameMarks":
 		op.a, op.b = h.pickVal(r), h.pickVal(r)
 	case "newValueSet":
 		if len(h.vals) > 0 && r.Intn(2) == 0 {
@@ -538,7 +538,7 @@ func (h *c20H) genOp(r *rand.Rand) *c20Op {
 		op.a, op.s = h.pickGo(r, "path"), str()
 	case "pathCopy":
 		op.a = h.pickGo(r, "path")
-	case "psAdd", "psHas":
+	case "psAdd", "psHas", "psRemove":
 		op.a, op.b = h.pickGo(r, "pset"), h.pickGo(r, "path")
 	case "psList":
 		op.a = h.pickGo(r, "pset")
